@@ -8,9 +8,12 @@ CONSTANTS
   LH = 4
   MaxArgsH = 2
   MaxSpare = 2
+  LG = 2
+  MaxFeats = 2
   Kinds = {"bare", "tr"}
 INVARIANTS
   AcceptedIffAcceptable AcceptedTiles RejectionMeaning CutsAccepted UTRsTile
   PositionsAdd OrientationsMultiply ConversionsInverse
   RejectedAtomic AcceptedResult HeldContract DeadBranch
+  GeneAcceptedIffAcceptable GeneRejectedAtomic GeneAcceptedResult GeneBoundsAgree
 CHECK_DEADLOCK FALSE
